@@ -289,6 +289,14 @@ func (o *c03Obs) After(w *wWorld, st *wStep) *kit.Viol {
 	}
 	c := st.reply()
 	if c == nil {
+		// refused before the handler ran (on-behalf-of from a non-root session): the reply has no id
+		for _, f := range st.Frames[st.Sess] {
+			if f.Ctrl != nil && f.Ctrl.Id == "" && f.Ctrl.Code >= 400 {
+				c = f.Ctrl
+			}
+		}
+	}
+	if c == nil {
 		return kit.V("pub-unanswered", "publish got no reply: %s", st.Req)
 	}
 	accept, decided, why := o.predict(w, st)
@@ -383,19 +391,29 @@ type c02Obs struct {
 
 func (o *c02Obs) After(w *wWorld, st *wStep) *kit.Viol {
 	defer o.att.update(w, st)
-	// per-session ordering of live copies
-	for sess, frames := range st.Frames {
-		for _, f := range frames {
-			if f.Data == nil || (st.Op.K == "get" && sess == st.Sess) || st.Op.K == "sub" || st.Op.K == "reload" {
-				continue
+	// per-session ordering of live copies (keyed by the routable topic: a root session attached on
+	// behalf of several users may see two different P2P topics under one name)
+	if st.Op.K == "pub" && !st.Skipped {
+		created := ""
+		for _, tr := range o.pre.Topics {
+			if tr.Name == st.Route {
+				created = tr.CreatedAt.String()
 			}
-			if o.lastSeq[sess] == nil {
-				o.lastSeq[sess] = map[string]int{}
+		}
+		key := st.Route + "|" + created
+		for sess, frames := range st.Frames {
+			for _, f := range frames {
+				if f.Data == nil || f.Data.Content != st.Token {
+					continue
+				}
+				if o.lastSeq[sess] == nil {
+					o.lastSeq[sess] = map[string]int{}
+				}
+				if prev := o.lastSeq[sess][key]; f.Data.SeqId <= prev {
+					return kit.V("copies-out-of-order", "session %d received #%d on %s after #%d", sess, f.Data.SeqId, st.Route, prev)
+				}
+				o.lastSeq[sess][key] = f.Data.SeqId
 			}
-			if prev := o.lastSeq[sess][f.Data.Topic]; f.Data.SeqId <= prev {
-				return kit.V("copies-out-of-order", "session %d received #%d on %s after #%d", sess, f.Data.SeqId, f.Data.Topic, prev)
-			}
-			o.lastSeq[sess][f.Data.Topic] = f.Data.SeqId
 		}
 	}
 	if st.Op.K == "disc" || st.Op.K == "reconn" || st.Op.K == "restart" {
